@@ -177,3 +177,77 @@ def replay_mutator(viol, profile):
     dr = res.get(n0 + 2)
     out['drops'] = json.loads(dr[1]) if dr and dr[0] == 'OK' else None
     return out
+
+
+# ---------------------------------------------------------------------------------------------
+# iterators: concrete reference over the pre-state dict (documented sequences), and native observation
+
+def _lnk(pre, L, n):
+    v = pre['slots'][n - 1][L]
+    return v[0] if v else None
+
+
+def ref_sequence(pre, kind, x):
+    N = len(pre['slots'])
+    def walk(start, f):
+        out = []; c = start
+        while c is not None and len(out) <= 2 * N + 2:
+            out.append(c); c = f(c)
+        return out
+    if kind == 'ancestors': return walk(x, lambda n: _lnk(pre, 'parent', n))
+    if kind == 'predecessors': return walk(x, lambda n: _lnk(pre, 'prev', n) or _lnk(pre, 'parent', n))
+    if kind == 'preceding_siblings': return walk(x, lambda n: _lnk(pre, 'prev', n))
+    if kind == 'following_siblings': return walk(x, lambda n: _lnk(pre, 'next', n))
+    if kind == 'children': return walk(_lnk(pre, 'first', x), lambda n: _lnk(pre, 'next', n))
+    if kind == 'reverse_children': return walk(_lnk(pre, 'last', x), lambda n: _lnk(pre, 'prev', n))
+    def kids(n): return walk(_lnk(pre, 'first', n), lambda c: _lnk(pre, 'next', c))
+    def dfs(n, depth=0):
+        if depth > N: return [('S', n)]
+        out = [('S', n)]
+        for c in kids(n): out += dfs(c, depth + 1)
+        return out + [('E', n)]
+    if kind == 'descendants': return [n for (k, n) in dfs(x) if k == 'S']
+    if kind == 'traverse': return dfs(x)
+    if kind == 'reverse_traverse': return list(reversed(dfs(x)))
+    raise ValueError(kind)
+
+
+def _fmt_id(pre, n):
+    return 'NodeId{index1:%d,stamp:NodeStamp(%d)}' % (n, pre['slots'][n - 1]['stamp'])
+
+
+def replay_iter(viol, profile):
+    pre, x, kind = viol['pre'], viol['args']['x'], viol['op']
+    lines = construct_script(pre)
+    n0 = len(lines)
+    out = {'profile': profile}
+    if viol.get('kind') == 'deiter':
+        pat = viol['pulls']
+        lines.append('pulls %s s%d %s' % (kind, x, pat))
+        F = ref_sequence(pre, kind, x)
+        exp = []; nf = nb = 0
+        for c in pat:
+            if nf + nb < len(F):
+                exp.append(_fmt_id(pre, F[nf] if c == 'f' else F[len(F) - 1 - nb]))
+                if c == 'f': nf += 1
+                else: nb += 1
+            else: exp.append('None')
+        expected = ','.join(exp)
+    elif kind in ('next_traverse', 'prev_traverse'):
+        return {'profile': profile, 'pre_ok': False, 'note': 'single-step law replays are not implemented'}
+    else:
+        lines.append('iter %s s%d' % (kind, x))
+        R = ref_sequence(pre, kind, x)
+        if kind in ('traverse', 'reverse_traverse'): expected = ','.join(k + _fmt_id(pre, n) for (k, n) in R)
+        else: expected = ','.join(_fmt_id(pre, n) for n in R)
+    res = run_script(lines, profile)
+    d = res.get(n0 - 1)
+    try: got = parse_dump(d[1]) if d and d[0] == 'OK' else None
+    except ValueError: got = None
+    out['script'] = lines
+    out['pre_ok'] = bool(got) and same_state(got, pre)
+    r = res.get(n0, ('MISSING', ''))
+    out['status'], out['observed'] = r
+    out['expected'] = expected
+    out['differs'] = (r[0] != 'OK') or (r[1].strip() != expected)
+    return out
